@@ -80,6 +80,11 @@ CHECKS = {
          "DiskCache (flat and hashed layouts) with free-string and all ten typed keys, ProtocolCache, RibbitTactClient::query against a loopback mock, CdnClient download/download_archive_index/download_range with keys of length 0..=32 and offsets/lengths incl. 0 and u64::MAX, Storage::open_installation, and the fixed-width path builders. Reads/deletes outside the root are made observable by planting a foreign file at the resolved target and using a fresh instance.",
          "Safety and domain: every string is resolved lexically before the call and skipped (counted) unless it stays inside the sandbox parent (<= 8 '..' components, absolute paths only below the parent); no symlinks, no NUL bytes. CDN hosts are loopback spellings only.",
          "DESIGN.md §3 C20"),
+ "C12": ("pbt+enum", "exploration",
+         "model-based stateful testing of MultiLayerCacheImpl: generated and exhaustively enumerated histories of puts/gets/promotions/removes/batches/validated accesses interleaved with corruption of the disk layer's files, judged against a per-key per-layer model with eviction uncertainty; every case runs under a watchdog for the 'every call returns' clause",
+         "[Memory(2-3), Disk] and [Memory(1-2), Memory(8), Disk], all eviction policies and promotion strategies, hooks none/MD5/NGDP; all sequences of <= 4 ops (5 thorough) over a 10-op alphabet on one hot key are enumerated. Hard clauses: a served value was put for that key and not removed; after remove/clear/validation drop every layer misses; a value held only by a slower layer is found; faster layers first; validated reads only return bytes hashing to the key and drop corrupted entries everywhere; batch = element-wise single; plus the latest-value clause.",
+         "Trusted: the layer model (first layer uncertain once the model counts it full); the reference MD5. A hang is reported only if two runs (60 s, then 180 s) stop in the same call with the thread asleep; statement-silent behaviour (contains==true, get_from_layer staleness, Err after a delete fault) is not judged.",
+         "DESIGN.md §3 C12"),
 }
 
 NOT_YET = "check not built yet in this session (work in progress; see DESIGN.md §3 for the planned generator and oracle)"
